@@ -9,7 +9,9 @@ use darklua_core::verif_hooks::generator_utils::write_number;
 use darklua_core::verif_hooks::generator_utils::write_string;
 use darklua_core::verif_hooks::generator_utils::write_interpolated_string_segment;
 use darklua_core::nodes::{Expression, InterpolatedStringExpression, InterpolationSegment, ReturnStatement, StringSegment, Block};
-use darklua_core::generator::{DenseLuaGenerator, LuaGenerator, ReadableLuaGenerator};
+use darklua_core::generator::{DenseLuaGenerator, LuaGenerator, ReadableLuaGenerator, TokenBasedLuaGenerator};
+use darklua_core::nodes::{IndexExpression, Prefix, TableExpression, TableIndexEntry};
+use darklua_core::Parser;
 
 fn emit(value: &[u8]) {
     let written = write_string(value);
@@ -194,6 +196,71 @@ fn main() {
                 emit(&structured(&mut rng));
             }
         }
+        "gens" => {
+            // literals written by each generator from token-less trees:
+            //   `NUM\t<coq number term>\t<generator>\t<hex text of "return <n>">`
+            //   `STR\t<generator>\t<shape>\t<hex value>\t<hex text>\t<ok | parse-error | differs>`
+            let seed = arg_u64(args, "--seed", 1);
+            let n = arg_u64(args, "--n", 40);
+            let mut rng = Rng::new(seed ^ 0x6e5);
+            let write = |generator: &str, block: &Block| -> String {
+                match generator {
+                    "dense" => { let mut g = DenseLuaGenerator::default(); g.write_block(block); g.into_string() }
+                    "readable" => { let mut g = ReadableLuaGenerator::default(); g.write_block(block); g.into_string() }
+                    _ => { let mut g = TokenBasedLuaGenerator::new(""); g.write_block(block); g.into_string() }
+                }
+            };
+            let mut numbers: Vec<NumberExpression> = Vec::new();
+            for v in [0.0, -0.0, 1.5, 1e100, 5e-324, 1.7976931348623157e308, f64::INFINITY, f64::NEG_INFINITY, f64::NAN, 0.1, 1e21, 1e22] {
+                numbers.push(DecimalNumber::new(v).into());
+                for e in [309i64, 999, 22, 1, 0, -1, -400] {
+                    numbers.push(DecimalNumber::new(v).with_exponent(e, false).into());
+                }
+            }
+            for text in ["1e309", "1e999", "2E308", "1.8e308", "-0e3", "0e-400", "1.18e1", "0x10", "0b101", "1_000.5e1_0"] {
+                if let Ok(number) = text.trim_start_matches('-').parse::<NumberExpression>() {
+                    numbers.push(number);
+                }
+            }
+            for number in &numbers {
+                let block = Block::default().with_last_statement(ReturnStatement::one(Expression::from(number.clone())));
+                for generator in ["dense", "readable", "token"] {
+                    println!("NUM\t{}\t{}\t{}", number_to_coq(number), generator, hex(write(generator, &block).as_bytes()));
+                }
+            }
+            let mut strings: Vec<Vec<u8>> = vec![
+                b"a".to_vec(), b"".to_vec(), vec![b'x'; 74], [vec![b'y'; 30], b"]]".to_vec(), vec![b'y'; 40]].concat(),
+                [vec![b'z'; 70], b"]".to_vec()].concat(), b"l1\nl2\nl3\nl4\nl5\nl6\nl7 long enough".to_vec(),
+                [b"\n".to_vec(), vec![b'w'; 70]].concat(), [vec![b'q'; 61], b"]=".to_vec()].concat(),
+            ];
+            for _ in 0..n {
+                strings.push(long_bracket_adversarial(&mut rng));
+                strings.push(structured(&mut rng));
+            }
+            let parser = Parser::default();
+            for value in strings {
+                let string: Expression = StringExpression::from_value(value.clone()).into();
+                let shapes: Vec<(&str, Block)> = vec![
+                    ("return", Block::default().with_last_statement(ReturnStatement::one(string.clone()))),
+                    ("index", Block::default().with_last_statement(ReturnStatement::one(IndexExpression::new(Prefix::from_name("t"), string.clone())))),
+                    ("key", Block::default().with_last_statement(ReturnStatement::one(
+                        TableExpression::new(vec![TableIndexEntry::new(string.clone(), true).into()])))),
+                    ("nested-index", Block::default().with_last_statement(ReturnStatement::one(IndexExpression::new(
+                        Prefix::from_name("t"), IndexExpression::new(Prefix::from_name("u"), string.clone()))))),
+                ];
+                for (shape, block) in shapes {
+                    let reference = write("dense", &block);
+                    for generator in ["dense", "readable", "token"] {
+                        let text = write(generator, &block);
+                        let verdict = match parser.parse(&text) {
+                            Ok(parsed) => if write("dense", &parsed) == reference { "ok" } else { "differs" },
+                            Err(_) => "parse-error",
+                        };
+                        println!("STR\t{}\t{}\t{}\t{}\t{}", generator, shape, hex(&value), hex(text.as_bytes()), verdict);
+                    }
+                }
+            }
+        }
         "strparse" => {
             // `<hex literal text> <hex value darklua reads, or ERR>`: source spellings of string literals, in
             // particular long brackets holding every kind of line break
@@ -330,6 +397,12 @@ fn main() {
                 values.push(v);
                 if rng.chance(1, 3) {
                     values.push(-v);
+                }
+            }
+            // non-finite values with a recorded exponent (what parsing `1e309` builds)
+            for v in [f64::INFINITY, f64::NEG_INFINITY, f64::NAN] {
+                for e in [309i64, 999, 308, 0, -1] {
+                    emit_number(&NumberExpression::from(DecimalNumber::new(v).with_exponent(e, e == 999)));
                 }
             }
             for v in &values {
